@@ -8,18 +8,18 @@ import (
 )
 
 const argMethodLoopBody = `v := a[i]
-if !set {
-	f = v
-	{{.ArgX}} = i 
-	set = true
-	continue
-}
 {{if isFloat .Kind -}}
 if {{mathPkg .Kind}}IsNaN(v) || {{mathPkg .Kind}}IsInf(v, {{if eq .ArgX "min"}}-{{end}}1) {
 	{{.ArgX}} = i
 	return {{.ArgX}}
 }
 {{end -}}
+if !set {
+	f = v
+	{{.ArgX}} = i 
+	set = true
+	continue
+}
 if v {{if eq .ArgX "max"}}>{{else}}<{{end}} f {
 	{{.ArgX}} = i
 	f = v
